@@ -133,8 +133,12 @@ impl QueryEngine {
         let _guard = self.metrics_table_query_lock.lock().await;
         self.register_metrics_table_for_chunks_locked(chunk_paths)
             .await?;
+        #[cfg(feature = "verif-hooks")]
+        crate::verif_hooks::pause("query.after_register").await;
         let planned = self.plan_sql(sql).await;
         drop(_guard);
+        #[cfg(feature = "verif-hooks")]
+        crate::verif_hooks::pause("query.after_plan").await;
         planned
     }
 
